@@ -10,6 +10,7 @@
 import Driver.Util
 import LcdbModel.Model.Lsm
 import LcdbModel.Model.DbIter
+import Driver.IoAbs
 open Lcdb Drv
 
 structure BatchRec where
@@ -60,6 +61,7 @@ structure TS where
   nCrash2 : Nat := 0
   nCrashNontrivial : Nat := 0
   nJ : Nat := 0
+  io : IoAbs.AbsState := {}
 
 def TS.problem (t : TS) (kind : String) (msg : String) : TS :=
   -- after an injected I/O fault the engine legitimately stops flushing/compacting and refuses writes: the structural
@@ -287,7 +289,11 @@ def parseIterOp (op : String) : Option IterOp :=
 
 def handleLine (t : TS) (line : String) : TS :=
   let t := { t with lineNo := t.lineNo + 1 }
-  match line.trimAscii.toString.splitOn " " with
+  let fields := line.trimAscii.toString.splitOn " "
+  let t := match fields with
+    | "j" :: idx :: rest => if t.faultMode then t else { t with io := t.io.line idx rest }
+    | _ => t
+  match fields with
   | ["open", rc, c] =>
     if rc != "0" then t.problem "MISMATCH[other]" s!"open failed rc={rc}"
     else
@@ -316,6 +322,7 @@ def handleLine (t : TS) (line : String) : TS :=
   | ["wf", ops] => match parseList parseWOp ops "," with
     | some os => { t with lastWF := os }
     | none => t.problem "MISMATCH[other]" "unparsable failed write"
+  | ["operr", op, rc] => if t.faultMode then t else t.problem "MISMATCH[other]" s!"{op} failed rc={rc}"
   | "fault-armed" :: _ => t
   | "faultstat" :: _ => t
   | ["file", num, size, entries] =>
@@ -424,6 +431,6 @@ partial def loop (h : IO.FS.Stream) (t : TS) : IO TS := do
 def main : IO Unit := do
   let stdin ← IO.getStdin
   let t ← loop stdin {}
-  for p in t.problems.take 40 do
+  for p in (t.problems ++ t.io.problems).take 40 do
     IO.println p
-  IO.println s!"done lines={t.lineNo} writes={t.nWrites} gets={t.nGets} iterops={t.nIter} flushes={t.nFlush} compactions={t.nCompact} trivialmoves={t.nTrivial} recoveries={t.nRecover} invchecks={t.nInv} vers={t.nVer} ls={t.nLs} crashes={t.nCrash} crashes2={t.nCrash2} crashnonempty={t.nCrashNontrivial} jevents={t.nJ} werr={t.nWerr} failedbatches={t.nFailedBatches} maxfiles={t.maxFiles} levelsused={t.levelsUsed} problems={t.problems.length}"
+  IO.println s!"done lines={t.lineNo} writes={t.nWrites} gets={t.nGets} iterops={t.nIter} flushes={t.nFlush} compactions={t.nCompact} trivialmoves={t.nTrivial} recoveries={t.nRecover} invchecks={t.nInv} vers={t.nVer} ls={t.nLs} crashes={t.nCrash} crashes2={t.nCrash2} crashnonempty={t.nCrashNontrivial} jevents={t.nJ} ioevents={t.io.nEvents} edits={t.io.nEdits} conforms={if t.io.mon.ok then 1 else 0} conformsstrict={if t.io.mon.ok && t.io.mon.okDel then 1 else 0} werr={t.nWerr} failedbatches={t.nFailedBatches} maxfiles={t.maxFiles} levelsused={t.levelsUsed} problems={t.problems.length + t.io.problems.length}"
